@@ -1,6 +1,9 @@
 import VlsModel.Lemmas.KVV
 import VlsModel.Gen.FnKvv
 import VlsModel.Gen.FnCloud
+import VlsModel.Gen.FnRedbVv
+import VlsModel.Gen.FnKvvTrait
+import VlsModel.Gen.FnPersistMod
 import VlsModel.Lemmas.FnGen
 /-
 C16 — the in-memory store of the model (`KVV.Mem.putV`, `KVV.Mem.put`, `KVV.nextVer`) tied to the bodies of
@@ -597,5 +600,168 @@ theorem C16_fn_cloud_prepare (f : Key → String) (hf : ∀ a b, f a = f b → a
     | e1 :: e2 :: rest =>
       simp [toCodeL]
       exact ⟨h.np, h.loc, h.log⟩
+
+/-! ## Round 9: the rest of `cloud.rs` (`enter`, `put_batch_unlogged`, `clear_database`, the delegations)
+
+`enter` was the last transaction method tied only by the harness (the un-annotated `BTreeMap::new()` is given its type
+by a declared normalisation rule, see the header of `Gen/FnCloud.lean`).  The signer id is opaque in the generated
+text: `sidOf` (= `local.signer_id()`) and `toVec` (= `SignerId::to_vec`) are explicit parameters, related to the model's
+`sid` by `hsid`. -/
+
+/-- `enter`: the next last-writer version comes from the **local** store's `_WRITER` record (`v + 1`, overflow at
+    `u64::MAX`, `0` when absent); entering twice panics; otherwise the fresh log holds exactly the last-writer record
+    with the signer id, and the local store is untouched -/
+theorem C16_fn_cloud_enter (f : Key → String) (hm : ∀ a b, a < b → f a < f b) (hw : f 0 = "_WRITER")
+    (cs : CloudKVVStore MemoryKVVStore) (c : Cloud) (h : SimL f cs c)
+    {SignerId : Type} (sidOf : MemoryKVVStore → SignerId) (toVec : SignerId → List Nat)
+    (hsid : toVec (sidOf cs.«local») = c.sid) :
+    AgreeC f (cs.enter getR sidOf toVec) (Cloud.enter c) := by
+  unfold CloudKVVStore.enter Cloud.enter CloudKVVStore.signer_id
+  have hg := C16_fn_get f cs.«local» c.loc h.loc 0
+  rw [hw] at hg
+  simp only [getR, hg, Rs.bind_ok, h.np, h.log, hsid]
+  cases hl : lookup c.loc 0 with
+  | none =>
+    simp only [Option.map, nextVer, Rs.pure_eq, Rs.bind_ok, Option.getD]
+    cases hc : c.log with
+    | none =>
+      simp only [Option.map, Option.isNone, Rs.assert, if_true, Rs.bind_ok, Bool.false_eq_true, if_false, AgreeC]
+      exact ⟨rfl, h.loc, by simp [toCodeL, Rs.smapInsert, hw]⟩
+    | some lg => simp [AgreeC, Rs.assert, Rs.panic, bind, Except.bind]
+  | some r =>
+    obtain ⟨v0, x0⟩ := r
+    simp only [Option.map, nextVer, Rs.uadd, U64MAX, Rs.U64_MAX]
+    by_cases hv : v0 < 18446744073709551615
+    · have hv' : v0 + 1 ≤ 18446744073709551615 := hv
+      simp only [hv, hv', if_true, Rs.pure_eq, Rs.bind_ok, Option.getD]
+      cases hc : c.log with
+      | none =>
+        simp only [Option.map, Option.isNone, Rs.assert, if_true, Rs.bind_ok, Bool.false_eq_true, if_false, AgreeC]
+        exact ⟨rfl, h.loc, by simp [toCodeL, Rs.smapInsert, hw]⟩
+      | some lg => simp [AgreeC, Rs.assert, Rs.panic, bind, Except.bind]
+    · have hv' : ¬ v0 + 1 ≤ 18446744073709551615 := by omega
+      simp [hv, hv', AgreeC, Rs.overflow, bind, Except.bind]
+
+/-- `put_batch_unlogged` (cloud → local replication): panics inside a transaction; outside one exactly the given list is
+    handed to the local store's `put_batch` (for **every** local store), whose result is the result; the log is not touched
+    (the function returns no new `self`) -/
+theorem C16_fn_cloud_put_batch_unlogged {L : Type} (cs : CloudKVVStore L)
+    (ext : L → List (String × (Nat × List Nat)) → Rs.M Unit) (kvvs : List (String × (Nat × List Nat))) :
+    cs.put_batch_unlogged ext kvvs
+      = if cs.commit_log.isSome then .error .panic else ext cs.«local» kvvs := by
+  unfold CloudKVVStore.put_batch_unlogged
+  cases cs.commit_log <;> simp [Rs.panic, bind, Except.bind, pure, Except.pure]
+
+/-- `clear_database`: only inside a transaction whose log is empty (`expect` / `assert!` panic otherwise); then the
+    local store's `clear_database` decides -/
+theorem C16_fn_cloud_clear_database {L : Type} (cs : CloudKVVStore L) (ext : L → Rs.M Unit) :
+    cs.clear_database ext
+      = (match cs.commit_log with
+         | some [] => ext cs.«local»
+         | _ => .error .panic) := by
+  unfold CloudKVVStore.clear_database
+  cases h : cs.commit_log with
+  | none => simp [Rs.unwrap, Rs.panic, bind, Except.bind]
+  | some lg => cases lg <;> simp [Rs.unwrap, Rs.assert, Rs.panic, bind, Except.bind, pure, Except.pure]
+
+/-- `get_local`, `get_prefix`, `signer_id` are the local store's (the pending log is **not** consulted: the `TODO merge
+    with commit log` of `get_prefix` is visible in the generated text) -/
+theorem C16_fn_cloud_get_local {L : Type} (cs : CloudKVVStore L)
+    (ext : L → String → Rs.M (Option (Nat × List Nat))) (key : String) :
+    cs.get_local ext key = ext cs.«local» key := rfl
+
+theorem C16_fn_cloud_get_prefix {L It : Type} (cs : CloudKVVStore L) (ext : L → String → Rs.M It) (p : String) :
+    cs.get_prefix ext p = ext cs.«local» p := rfl
+
+theorem C16_fn_cloud_signer_id {L S : Type} (cs : CloudKVVStore L) (ext : L → S) :
+    cs.signer_id ext = ext cs.«local» := rfl
+
+/-- a whole transaction through the generated code: `enter`, then `prepare` reports nothing for an untouched log
+    (non-vacuity of `C16_fn_cloud_enter`: the hypotheses hold for the empty store) -/
+example : (({ «local» := ⟨[]⟩, commit_log := none } : CloudKVVStore MemoryKVVStore).enter getR (fun _ => (7 : Nat)) (fun n => [n]))
+    = .ok { «local» := ⟨[]⟩, commit_log := some [("_WRITER", (0, [7]))] } := by
+  simp [CloudKVVStore.enter, CloudKVVStore.signer_id, getR, MemoryKVVStore.get, Rs.smapGet, Rs.smapInsert, Rs.assert,
+    bind, Except.bind, pure, Except.pure]
+
+/-! ## Round 9: the record format of the redb store through rs2lean (`Gen/FnRedbVv.lean`)
+
+`decode_vv` / `encode_vv` were so far generated by the byte-assembly translator `x_hmac.py` (`Props/C16Gen.lean`); here
+the same two functions come from `rs2lean.py` (bytes as `Nat`s below 256, as in `Gen/FnRedb.lean`, whose external
+`ext_encode_vv` this instantiates), and are run against the real functions by the translator differential. -/
+
+open VlsModel.Gen.FnRedbVv (RedbKVVStore)
+
+theorem C16_fn_redb_encode_vv (v : Nat) (x : List Nat) (h : x.length + 8 ≤ Rs.USIZE_MAX) :
+    RedbKVVStore.encode_vv v x = .ok (Rs.toBeBytes 8 v ++ x) := by
+  simp [RedbKVVStore.encode_vv, Rs.uadd, h, bind, Except.bind, pure, Except.pure]
+
+theorem C16_fn_redb_decode_vv (b : List Nat) :
+    RedbKVVStore.decode_vv b
+      = if 8 ≤ b.length then .ok (Rs.fromBeBytes (b.take 8), b.drop 8) else .error .panic := by
+  unfold RedbKVVStore.decode_vv
+  by_cases h : 8 ≤ b.length
+  · have h8 : (List.take 8 b).length = 8 := by simp [List.length_take]; omega
+    have hd : List.take (b.length - 8) (List.drop 8 b) = List.drop 8 b :=
+      List.take_of_length_le (by simp [List.length_drop])
+    simp [Rs.slice, Rs.arrayOfSlice, h, h8, hd, bind, Except.bind, pure, Except.pure]
+  · simp [Rs.slice, h, bind, Except.bind, Rs.panic]
+
+theorem toBeBytes8_length (v : Nat) : (Rs.toBeBytes 8 v).length = 8 := by simp [Rs.toBeBytes]
+
+theorem fromBe_toBe8 (v : Nat) (hv : v ≤ U64MAX) : Rs.fromBeBytes (Rs.toBeBytes 8 v) = v := by
+  have h' : v < 18446744073709551616 := by unfold U64MAX at hv; omega
+  simp only [Rs.toBeBytes, Rs.fromBeBytes, List.range, List.range.loop, List.map_cons, List.map_nil, List.foldl_cons,
+    List.foldl_nil, Nat.shiftRight_eq_div_pow]
+  omega
+
+/-- a record written by `encode_vv` reads back as exactly the version and value written (reads and the version cache
+    rebuilt on reopen see what was written) -/
+theorem C16_fn_redb_decode_encode (v : Nat) (x : List Nat) (hv : v ≤ U64MAX) :
+    RedbKVVStore.decode_vv (Rs.toBeBytes 8 v ++ x) = .ok (v, x) := by
+  rw [C16_fn_redb_decode_vv]
+  have hl : 8 ≤ (Rs.toBeBytes 8 v ++ x).length := by simp [toBeBytes8_length]
+  have ht : List.take 8 (Rs.toBeBytes 8 v ++ x) = Rs.toBeBytes 8 v := by
+    rw [List.take_append_of_le_length (by simp [toBeBytes8_length])]
+    exact List.take_of_length_le (by simp [toBeBytes8_length])
+  have hd : List.drop 8 (Rs.toBeBytes 8 v ++ x) = x := by
+    have := List.drop_append (l₁ := Rs.toBeBytes 8 v) (l₂ := x) (i := 0)
+    simpa [toBeBytes8_length] using this
+  simp only [hl, if_true, ht, hd, fromBe_toBe8 v hv]
+
+/-- hence the comparison of encodings (`existing.value() != &vv` in `put_with_version` / `put_batch`) is the comparison
+    of `(version, value)`: the hypothesis `EncInj` of the `C16_gen_redb_*` simulation theorems holds for the generated
+    encoder -/
+theorem C16_fn_redb_encode_inj (v v' : Nat) (x x' : List Nat) (hv : v ≤ U64MAX) (hv' : v' ≤ U64MAX)
+    (h : Rs.toBeBytes 8 v ++ x = Rs.toBeBytes 8 v' ++ x') : v = v' ∧ x = x' := by
+  have h1 := C16_fn_redb_decode_encode v x hv
+  rw [h, C16_fn_redb_decode_encode v' x' hv'] at h1
+  injection h1 with h2
+  injection h2 with h3 h4
+  exact ⟨h3.symm, h4.symm⟩
+
+/-- `get_version` answers from the version **cache** (never from the table) -/
+theorem C16_fn_redb_get_version (f : Key → String) (c : RedbKVVStore) (cache : AL Nat)
+    (h : ∀ k, Rs.smapGet c.versions (f k) = lookup cache k) (k : Key) :
+    c.get_version (f k) = .ok (lookup cache k) := by
+  simp [RedbKVVStore.get_version, h k]
+
+example : RedbKVVStore.decode_vv [0, 0, 0, 0, 0, 0, 1, 2, 9, 8] = .ok (258, [9, 8]) := by
+  rw [C16_fn_redb_decode_vv]; simp [Rs.fromBeBytes]
+
+/-! ## Round 9: the defaults of the `KVVStore` / `Persist` traits and `KVV::into_inner`
+
+A store that does not override the transaction methods (`MemoryKVVStore`, `RedbKVVStore`) has no staging: `enter` and
+`commit` succeed without effect and `prepare` reports **no** mutations — the cloud clauses of the statement are about
+`CloudKVVStore` only. -/
+
+theorem C16_fn_kvv_into_inner (e : String × (Nat × List Nat)) : Gen.FnKvvTrait.KVV.into_inner e = e := rfl
+
+theorem C16_fn_kvvstore_default_enter {S : Type} (s : S) : Gen.FnKvvTrait.KVVStore.enter s = .ok () := rfl
+theorem C16_fn_kvvstore_default_prepare {S : Type} (s : S) : Gen.FnKvvTrait.KVVStore.prepare s = [] := rfl
+theorem C16_fn_kvvstore_default_commit {S : Type} (s : S) : Gen.FnKvvTrait.KVVStore.commit s = .ok () := rfl
+
+theorem C16_fn_persist_default_enter {S : Type} (s : S) : Gen.FnPersistMod.Persist.enter s = .ok () := rfl
+theorem C16_fn_persist_default_prepare {S : Type} (s : S) : Gen.FnPersistMod.Persist.prepare s = [] := rfl
+theorem C16_fn_persist_default_commit {S : Type} (s : S) : Gen.FnPersistMod.Persist.commit s = .ok () := rfl
 
 end VlsModel.Props.C16Fn
